@@ -77,6 +77,12 @@ c.raises("submit/errors-of-the-base-submit-propagate-with-the-lock-released", "B
 c.modifies("self._queue_count", "contents(self._pending_work_items)", "G.work_ids", "contents(self._processes)", "G.started", "G.pid_live", "G.proc_of_pid",
            "self._executor_manager_thread", f"glob:{PE}.process_pool_executor_at_exit")
 
+# eventual guarantees of the other threads (manager, workers) the polling loops of this module rely on (assumptions, A-progress)
+P_JOBS = "len(self._pending_work_items) == 0"
+P_SURPLUS = "len(self._processes) <= self._max_workers or self._flags.broken is not None"
+P_REGISTRY = "self._flags.broken is not None or forall(Int, lambda k: implies(k in self._processes, G.proc_up[self._processes[k]]))"
+S.assumption("A-progress", "eventual guarantees of the manager thread and the workers: every pending job is eventually resolved; workers that were sent a sentinel "
+                           "or time out exit and are removed from the worker table; eventually every worker still in the table is running, or the pool is flagged broken")
 SHARED = ["contents(self._pending_work_items)", "contents(self._running_work_items)", "contents(self._processes)", "self._flags.broken"]
 c = M.contract(f"{RPE}._wait_job_completion", props=["C10"])
 c.param("self", T.Ref(RPE))
@@ -88,6 +94,7 @@ c.modifies(*SHARED)
 i = M.invariant(f"{RPE}._wait_job_completion", 0, "while self._pending_work_items:")
 i.inv("polls-only", "log_count('cq_put') == 0")
 i.iter_post("one-short-sleep-per-poll", "log_count('sleep') == 1")
+i.exits_under("jobs-resolved", P_JOBS, havoc=SHARED + ["G.proc_up"], tag="A-progress")
 
 c = M.contract(f"{RPE}._resize", props=["C10", "C09"])
 c.param("self", T.Ref(RPE)).param("max_workers", T.Opt(T.Int))
@@ -95,7 +102,7 @@ c.rely("registered-pids-are-live-children", "forall(Int, lambda k: implies(k in 
 c.rely("a-started-executor-has-its-internals", "implies(self._executor_manager_thread is not None, self._processes_management_lock is not None and "
        "self._call_queue is not None and self._result_queue is not None)", "A-atomic")
 MW = "the(max_workers)"
-c.ensures("resize/size-recorded", f"not is_none(max_workers) and self._max_workers == {MW}")
+c.ensures("resize/size-recorded-and-none-never-accepted", f"not is_none(max_workers) and self._max_workers == {MW}")
 c.ensures("resize/same-size-or-unstarted-touches-nothing",
           f"implies(old(self._max_workers) == {MW} or old(self._executor_manager_thread) is None, "
           "G.n_sentinels == old(G.n_sentinels) and log_count('call:ProcessPoolExecutor._adjust_process_count') == 0 and "
@@ -105,17 +112,25 @@ ADJ = "call:ProcessPoolExecutor._adjust_process_count"
 c.ensures("resize/waits-for-jobs-then-tops-up",
           f"implies(old(self._max_workers) != {MW} and old(self._executor_manager_thread) is not None, "
           f"log_count('{WJC}') == 1 and log_count('{ADJ}') == 1 and log_before('{WJC}', '{ADJ}') and G.n_sentinels >= old(G.n_sentinels))")
+WK = "call:_ThreadWakeup.wakeup"
+c.ensures("resize/manager-woken-after-the-top-up-so-that-it-watches-the-new-workers",
+          f"implies(old(self._max_workers) != {MW} and old(self._executor_manager_thread) is not None and self._executor_manager_thread_wakeup is not None, "
+          f"log_count('{WK}') == 1 and log_arg('{WK}', 0, 1) is self._executor_manager_thread_wakeup and log_before('{ADJ}', '{WK}') and "
+          f"ordered('acquire', lambda l: l is self._flags.shutdown_lock, '{WK}', lambda *a: True) and exists_event('acquire', lambda l: l is self._flags.shutdown_lock))")
 c.ensures("resize/under-the-submit-resize-lock", "log_arg('acquire', 0, 0) is self._submit_resize_lock and log_pos('acquire', 0) == 0 and log_tags()[-1] == 'release'")
 c.at_call("mp.Queue.put", "sentinels-posted-under-the-management-lock-after-the-size-was-recorded-between-the-wait-and-the-top-up",
           f"held(self._processes_management_lock) and held(self._submit_resize_lock) and self._max_workers == {MW} and arg_0 is None and "
           f"arg_self is self._call_queue and log_count('{WJC}') == 1 and log_count('{ADJ}') == 0", prop="C10")
+c.at_call("Process.is_alive", "surplus-counted-under-the-management-lock-after-the-job-wait-or-polled-after-the-top-up",
+          f"(held(self._processes_management_lock) and log_count('{WJC}') == 1 and log_count('{ADJ}') == 0) or log_count('{ADJ}') == 1", prop="C10")
 c.at_call(f"{PE}:{PPE}._adjust_process_count", "tops-up-under-the-submit-resize-lock-with-the-new-size",
           f"held(self._submit_resize_lock) and self._max_workers == {MW}", prop="C10")
-c.raises("resize/none-is-rejected-before-anything-happens", "ValueError",
-         post="is_none(max_workers) and G.n_sentinels == old(G.n_sentinels) and log_count('sleep') == 0 and self._max_workers == old(self._max_workers) and log_tags()[-1] == 'release'")
-c.raises("resize/a-failed-spawn-propagates-with-the-lock-released", "OSError", post="log_tags()[-1] == 'release'")
-c.raises_only("resize/only-those")
+c.raises("resize/none-is-rejected-before-anything-happens-and-every-error-leaves-the-lock-released", "Exception",
+         post="log_tags()[-1] == 'release' and implies(is_none(max_workers), exc_is(exc, 'ValueError') and G.n_sentinels == old(G.n_sentinels) and "
+              "log_count('sleep') == 0 and self._max_workers == old(self._max_workers))")
+c.raises_only("resize/only-exceptions")
 c.yield_at("time.sleep", SHARED, tag="A-yield")
+c.replay_for("exits-under/registered-workers-running-or-pool-broken", "resize_worker_leaves", bound="12")
 c.modifies("self._max_workers", *SHARED, "G.started", "G.pid_live", "G.proc_of_pid", "G.sem_released", "G.n_sentinels")
 i = M.invariant(f"{RPE}._resize", 0, "for _ in range(max_workers, nb_children_alive):")
 i.inv("one-sentinel-per-surplus-worker-found-alive",
@@ -125,9 +140,10 @@ i = M.invariant(f"{RPE}._resize", 1, "while (")
 i.inv("size-recorded", f"self._max_workers == {MW}")
 i.inv("no-further-sentinel", "G.n_sentinels == at_entry(G.n_sentinels)")
 i.iter_post("one-short-sleep-per-poll", "log_count('sleep') == 1 and log_count('cq_put') == 0")
-i = M.invariant(f"{RPE}._resize", 2, "while not all(p.is_alive() for p in processes):")
+i.exits_under("surplus-workers-gone", P_SURPLUS, havoc=SHARED + ["G.proc_up"], tag="A-progress")
+i = M.invariant(f"{RPE}._resize", 2, "while not self._flags.broken and not all(")
 i.inv("size-recorded", f"self._max_workers == {MW}")
-i.inv("the-workers-awaited-are-at-least-the-requested-number", f"len(processes) >= {MW}")
+i.exits_under("registered-workers-running-or-pool-broken", P_REGISTRY, havoc=SHARED + ["G.proc_up"], tag="A-progress")
 i.iter_post("one-short-sleep-per-poll", "log_count('sleep') == 1 and log_count('cq_put') == 0")
 
 # ---------------------------------------------------------------- the factory (C09)
